@@ -766,4 +766,25 @@ def State.step (s : State) (op : Op) (e : StepEnv) : State × Out :=
   | .rcvBytes n now => (s.receivedBytes e.env n now, {})
   | .rcvPacket lvl now => (s.receivedPacket e.env lvl now, {})
 
+/-- outcome of a history: final state, all callbacks, all silently discarded frames (ghost), all packet
+    numbers recorded as skipped (ghost), and whether no operation panicked (a Go panic ends the connection:
+    the history stops there) -/
+structure RunRes where
+  s : State
+  evs : List Ev := []
+  disc : List Frame := []
+  skipped : List PN := []
+  ok : Bool := true
+deriving Repr
+
+/-- run a history of operations, each with its environment inputs -/
+def State.run (s : State) : List (Op × StepEnv) → RunRes
+  | [] => { s := s }
+  | (op, e) :: rest =>
+    let r := s.step op e
+    if r.2.res.isPanic then { s := r.1, evs := r.2.evs, disc := r.2.disc, skipped := r.2.skipped, ok := false }
+    else
+      let t := State.run r.1 rest
+      { s := t.s, evs := r.2.evs ++ t.evs, disc := r.2.disc ++ t.disc, skipped := r.2.skipped ++ t.skipped, ok := t.ok }
+
 end Uquic.Model.Sent
